@@ -280,7 +280,9 @@ class PyFlow:
         follow_handlers: bool = False,
         super_targets: Optional[Dict[int, ast.FunctionDef]] = None,
         inline_props: bool = False,
+        value_hooks: Optional[Dict[str, Callable[[List[Poly]], Poly]]] = None,
     ) -> None:
+        self.value_hooks = value_hooks or {}  # pure helpers whose value another normaliser supplies
         self.inline_props = inline_props  # self.<property> is evaluated through the property's body
         self.super_targets = super_targets or {}  # id(`super().m(...)` call node) -> next implementation in the MRO
         self.funcs = dict(funcs or {})
@@ -708,11 +710,21 @@ class PyFlow:
             out.append(q)
         return out
 
+    def _attr_key(self, t: ast.Attribute, q: Path) -> str:
+        """`recv.attr` spelled through what the receiver is bound to (inside an inlined method of
+        a typed receiver `self` is the caller's object)"""
+        d = src_of(t)
+        if isinstance(t.value, ast.Name) and t.value.id in q.env:
+            ra = single_atom(q.env[t.value.id])
+            if ra is not None and ra[0] == "var" and ra[1] != t.value.id and ra[1] in self.typed:
+                return f"{ra[1]}.{t.attr}"
+        return d
+
     def _bind(self, t: ast.AST, v: Poly, q: Path, node: ast.AST) -> None:
         if isinstance(t, ast.Name):
             q.env[t.id] = v
         elif isinstance(t, ast.Attribute):
-            d = src_of(t)
+            d = self._attr_key(t, q)
             old = q.env.get(d, V(self.names.get(d, d)))
             q.effects.append(Ev("setattr", self.names.get(d, d), [v], {"old": old}, node=node, op="="))
             q.env[d] = v
@@ -752,14 +764,15 @@ class PyFlow:
                 old = q.env.get(t.id, V(self.names.get(t.id, t.id)))
                 q.env[t.id] = self.binop(st.op, old, v, st)
             elif isinstance(t, ast.Attribute):
-                d = src_of(t)
+                d = self._attr_key(t, q)
                 old = q.env.get(d, V(self.names.get(d, d)))
                 new = self.binop(st.op, old, v, st)
                 q.effects.append(Ev("setattr", self.names.get(d, d), [v, new], {"old": old}, node=st, op=opname))
                 q.env[d] = new
             elif isinstance(t, ast.Subscript):
                 base = self._pure(t.value, q)
-                idx = self._pure(t.slice, q)
+                ri = self.ev(t.slice, q, depth, no_effect=True)
+                idx = ri[0][1] if len(ri) == 1 else self._pure(t.slice, q)
                 q.effects.append(Ev("store", show(base), [idx, v], recv=base, node=st, op=opname))
             out.append(q)
         return out
@@ -1027,6 +1040,23 @@ class PyFlow:
                     if fn_ is not None and any("property" in src_of(d_) for d_ in fn_.decorator_list) and e.attr not in self.primitives and (self.inline_filter is None or self.inline_filter(e.attr, fn_)):
                         call_ = ast.copy_location(ast.Call(func=e, args=[], keywords=[]), e)
                         return self.call(call_, p, depth, False, no_effect)
+            if self.inline_props and isinstance(e.value, ast.Name) and depth < self.max_depth:
+                # a property of a typed receiver (ctx.bit_offset)
+                rv_ = p.env.get(e.value.id, V(e.value.id))
+                ra_ = single_atom(rv_)
+                if ra_ is not None and ra_[0] == "var" and ra_[1] in self.typed and e.value.id not in self.self_names:
+                    fn_ = self.typed[ra_[1]].get(e.attr)
+                    if fn_ is not None and any("property" in src_of(d_) for d_ in fn_.decorator_list) and (self.inline_filter is None or self.inline_filter(e.attr, fn_)):
+                        call_ = ast.copy_location(ast.Call(func=e, args=[], keywords=[]), e)
+                        return self.call(call_, p, depth, False, no_effect)
+            if isinstance(e.value, ast.Name) and e.value.id in p.env and e.value.id in self.self_names:
+                # inside an inlined method of a typed receiver: self.i is the caller's ctx.i
+                ra_ = single_atom(p.env[e.value.id])
+                if ra_ is not None and ra_[0] == "var" and ra_[1] != e.value.id and ra_[1] in self.typed:
+                    d2 = f"{ra_[1]}.{e.attr}"
+                    if d2 in p.env:
+                        return [(p, p.env[d2])]
+                    return [(p, V(self.names.get(d2, d2)))]
             if isinstance(e.value, ast.Name) and e.value.id not in p.env:
                 cv = self._const(d, p)
                 if cv is not None:
@@ -1209,7 +1239,7 @@ class PyFlow:
         if isinstance(f, ast.Attribute) and isinstance(f.value, ast.Call) and isinstance(f.value.func, ast.Name) and f.value.func.id == "super" and not f.value.args:
             fn = self.super_targets.get(id(e))
             if fn is not None and f.attr not in self.primitives and (self.inline_filter is None or self.inline_filter(f.attr, fn)):
-                nm = next((n for n in self.self_names if n in p.env), self.self_names[0] if self.self_names else "self")
+                nm = next((n for n in self.self_names if n in p.env), "self" if "self" in self.self_names or not self.self_names else self.self_names[0])
                 return fn, p.env.get(nm, V(nm))
             return None
         if isinstance(f, ast.Name):
@@ -1404,6 +1434,8 @@ class PyFlow:
             return self.ev(a0, p, depth, no_effect=no_effect)
         if fname in ("byte", "uint8") and isinstance(f, ast.Name) and len(e.args) == 1 and fname not in self.funcs:
             return [(q, trunc8(v)) for q, v in self.ev(e.args[0], p, depth, no_effect=no_effect)]
+        if fname in self.value_hooks and isinstance(f, ast.Name) and not e.keywords:
+            return [(q, self.value_hooks[fname](vals)) for q, vals in self.ev_many(list(e.args), p, depth, no_effect=no_effect)]
         if fname in ("cast", "cast_or_raise") and len(e.args) == 2:
             return self.ev(e.args[1], p, depth, no_effect=no_effect)
         if fname == "next" and isinstance(f, ast.Name) and len(e.args) == 2 and "next" not in self.funcs:
@@ -1533,6 +1565,21 @@ class PyFlow:
                     else:
                         kws["**"] = sv
                 name = alias_name or fname or src_of(f)
+                # a known function called with keyword arguments: by position, as its signature orders them
+                sig = self.funcs.get(name) if isinstance(f, ast.Name) else None
+                if sig is not None and kws and "**" not in kws:
+                    params_ = [a_.arg for a_ in sig.args.args]
+                    if all(k_ in params_ for k_ in kws) and len(pos) <= len(params_):
+                        rest_ = params_[len(pos):]
+                        filled = []
+                        for pn_ in rest_:
+                            if pn_ in kws:
+                                filled.append(kws[pn_])
+                            else:
+                                break
+                        if len(filled) == len(kws):
+                            pos = list(pos) + filled
+                            kws = {}
                 if callee_val is not None:
                     kws = dict(kws)
                     kws["__callee__"] = callee_val
